@@ -161,17 +161,25 @@ CLAIMS['C15'] = dict(
          'fewer than 2^32 lines for line_count / Lines. SourceView::from_string, clone, source, sourcemap_reference and the Iterator trait plumbing of Lines are not under contract. '
          'The bounded stand-in sourceview still runs through the public API (real Mutex / atomics).',
     design_ref='DESIGN.md 5 C15')
-CLAIMS['C17'] = dict(category='other', technique='bounded enumeration of the function contract (stand-in for contract-based deductive verification)',
-    text=_BOUNDED_ONLY % ('function-name resolution runs on SourceView (see C15), the if_chain! macro, char iterators walked backwards and the Unicode identifier tables of a dependency.', 'function_name'),
-    note='Bound: 4 generated programs, tokens at every UTF-16 column, every start token x 12 candidate names, plus the 128-token window; identifier classification restricted to ASCII, three non-ASCII letters and the joiners.',
+CLAIMS['C17'] = dict(
+    text='PARTIAL: unbounded proof of the identifier layer (src/js_identifiers.rs): is_valid_start / is_valid_continue are the ECMA-262 classes of the statement ($, _, ASCII letters / digits, '
+         'ZWNJ / ZWJ, and the Unicode ID_Start / ID_Continue tables for non-ASCII characters only); strip_identifier returns the longest identifier a string starts with and nothing otherwise, its '
+         'byte index proved to be the UTF-8 offset after the last identifier character (so the slice can never fall inside a character: the D14 panic is excluded for every string); '
+         'is_valid_javascript_identifier holds exactly for strings that are one identifier; get_javascript_token is the identifier at the start of the first whitespace-separated word. '
+         'The backward token walk (RevTokenIter::next: cached line / UTF-16 column / byte offset) and the pairing loop of get_original_function_name are decided by the BOUNDED stand-in function_name only.',
+    note=_TB + 'Assumed: the Unicode tables of the unicode-id-start crate (two uninterpreted predicates), char::is_whitespace (uninterpreted), str::char_indices, split_whitespace().next(), &s[..n] at a '
+         'character offset (a precondition, i.e. proved at the call), Option::map_or. Bound of the stand-in: 8 generated programs, tokens at every UTF-16 column, every start token x 27 candidate names, plus the 128-token window.',
     design_ref='DESIGN.md 5 C17')
 CLAIMS['C18'] = dict(
-    text='PARTIAL: unbounded proof of three of the listed mechanisms (src/detector.rs): SourceMapRef::get_url returns the URL of either comment form; '
-         'get_embedded_sourcemap decodes a reference whose URL starts with "data:" -- for the regular and the legacy form alike -- and answers "no embedded map" for '
-         'anything else; the detection predicate is_sourcemap_common accepts every document that has the keys a serialised regular / Hermes map (version, sources, '
-         'mappings) or index map (sections) always has, and nothing without mappings or sections. The line scan (BufReader::lines, byte slicing, trim), the base64 '
-         'writer / reader pair of the data URL and the serde layer of the predicates are std / dependency glue outside the verifier\'s subset: bounded stand-in discover.',
-    note=_TB + 'decode_data_url is represented by a named result (no property assumed); str::starts_with by its shim contract.',
+    text='PARTIAL: unbounded proof of the discovery and detection mechanisms (src/detector.rs): locate_sourcemap_reference returns, for the sequence of lines its reader yields, the reference '
+         'of the FIRST line that begins with "//# sourceMappingURL=" or "//@ sourceMappingURL=" -- the URL is the rest of that line after the 21-character prefix, trimmed; the "@" form is '
+         'flagged legacy -- nothing when no line begins that way, an error when an earlier line cannot be read; the byte offset 21 is proved to be a character boundary of such a line '
+         '(ASCII prefix), so the slice cannot panic and from_utf8 cannot fail; locate_sourcemap_reference_slice scans the whole slice (for every length); SourceMapRef::get_url returns the URL '
+         'of either form; get_embedded_sourcemap decodes a reference whose URL starts with "data:" for both forms and answers "no embedded map" otherwise; is_sourcemap_common accepts every '
+         'document with the keys a serialised regular / Hermes map (version, sources, mappings) or index map (sections) always has, and nothing without mappings or sections. The base64 writer / '
+         'reader pair of the data URL and the serde layer of the predicates are dependency glue: bounded stand-in discover.',
+    note=_TB + 'Assumed: BufReader::lines as "the lines of what the reader delivers" (the splitting of bytes into lines is std\'s; the slice variant is stated relative to slice_lines(bytes)), str::from_utf8 of a tail, '
+         'str::trim / to_owned, str::starts_with; decode_data_url is represented by a named result (no property assumed). The two From impls behind `?` (io::Error, Utf8Error) are the crate\'s, verified against vstd\'s From specification.',
     design_ref='DESIGN.md 5 C18')
 
 CLAIMS['C19'] = dict(
@@ -205,7 +213,8 @@ NOT_APPLICABLE['C16'] = ('concurrency (interleavings of threads sharing a Source
 # parts of each property that no discharged obligation covers (reported in every evidence file, never counted)
 NOT_COVERED = {
     'C15': ['the sequential reading of Mutex / AtomicUsize is an assumption (R-seq); threads are C16', 'SourceView::from_string / clone (other constructors), Lines as an Iterator impl (verified as the inherent method, R-trait-inherent)', 'the unsafe lifetime extension of cached lines'],
-    'C18': ['locate_sourcemap_reference (BufReader::lines, from_utf8 of a byte slice, trim): bounded stand-in discover', 'to_data_url / decode_data_url round trip (base64 of two crates): bounded', 'is_sourcemap / is_sourcemap_slice wiring around serde_json: bounded (header, discover)'],
+    'C17': ['RevTokenIter::next (backward walk with the cached line / column / byte offset): bounded stand-in function_name', 'SourceView::get_original_function_name pairing loop (take(128).peekable(), if_chain!): bounded', 'SourceMap / SourceMapIndex / DecodedMap::get_original_function_name wrappers'],
+    'C18': ['how BufReader::lines cuts bytes into lines (std; assumed -- exercised by the bounded stand-in discover incl. texts larger than any buffer)', 'to_data_url / decode_data_url round trip (base64 of two crates): bounded', 'is_sourcemap / is_sourcemap_slice wiring around serde_json: bounded (header, discover)'],
     'C19': ['make_relative_path itself (iterator-adapter chain: split / filter / collect / sort_by_key / repeat / take / join): bounded stand-in relpath', 'find_common_prefix (the rewrite "~" option): not part of C19'],
     'C20': ['scroll::Pread internals and the derive(Pread) expansion (assumed contracts; exercised by the bounded stand-in ram_bundle)', 'UnbundleRamBundle (file-system based variant)', 'split_ram_bundle / SplitRamBundleModuleIter (composition with flatten and SourceMapBuilder)', 'that Iterator::next of RamBundleModuleIter is the inherent body verified here (R-trait-inherent: same text, emitted outside the trait impl)'],
     'C10': ['the sweep of adjust_mappings (skip / overlap / clip / advance, displacement arithmetic, final sort): bounded stand-in only', 'positions >= 2^31 (as i32)'],
